@@ -135,6 +135,8 @@ def run(F, rep, tier):
     run_r10(F, rep)
     from rules.c10_lines import run_r11
     run_r11(F, rep)
+    from rules.c10_opws import run_r12
+    run_r12(F, rep)
 
 
 def _run(F, rep, tier):
